@@ -362,12 +362,69 @@ pub fn run(tier: Tier) -> i32 {
         rep.violations(v);
         rep.cover("pdelay_req_id_wrap_history", json!(65_537));
     }
+    // end to end: a real requesting port and a real responding port (the library's own responder)
+    // over a symmetric link of d ns; the request spends c ns in a transparent clock on its way
+    // (added to its correctionField), the response path is direct.  The delay handed to the
+    // requester's filter must be d, whatever c.
+    {
+        use simcore::scen::*;
+        let mut cases = 0u64;
+        for d in [0i64, 800, 123_456] {
+            for c in [0i64, 1, 5_000, 123_456, 40_000_000, -700] {
+                for sub in [0i64, 0x8000] {
+                    cases += 1;
+                    let mut rq = NodeSpec::default();
+                    rq.ports = vec![PortSpec { p2p: true, ..Default::default() }];
+                    let mut rs = NodeSpec::default();
+                    rs.identity = [0x77, 0, 0, 0, 0, 0, 0, 9];
+                    rs.ports = vec![PortSpec { p2p: true, ..Default::default() }];
+                    let log: FilterLog = Default::default();
+                    let log2 = log.clone();
+                    let got = with_node::<RecFilter, _>(&rq, move |_| RecCfg(log2.clone(), false), |r| {
+                        with_node::<RecFilter, _>(&rs, |_| RecCfg(Default::default(), false), |s| {
+                            let t1: u64 = 100_000_000_000;
+                            let mut acts = delay_timer(r, 0);
+                            let (ctx, mut req) = take_ctx(&mut acts)?;
+                            let _ = collect(r.port(0).handle_send_timestamp(ctx, time_ns(t1)));
+                            // residence time in a transparent clock (2^-16 ns units)
+                            let corr = i64::from_be_bytes(req[8..16].try_into().unwrap()) + (c << 16) + sub;
+                            req[8..16].copy_from_slice(&corr.to_be_bytes());
+                            let t2 = (t1 as i64 + d + c) as u64;
+                            let mut a2 = event(s, 0, &req, time_bits(((t2 as u128) << 32) + ((sub as u128) << 16)));
+                            let (ctx2, resp) = take_ctx(&mut a2)?;
+                            let t3 = t2 + 3_000;
+                            let a3 = collect(s.port(0).handle_send_timestamp(ctx2, time_ns(t3)));
+                            let fup = a3.iter().find_map(|a| if let Act::SendGeneral { data, .. } = a { Some(data.clone()) } else { None })?;
+                            let t4 = (t3 as i64 + d) as u64;
+                            let _ = event(r, 0, &resp, time_ns(t4));
+                            let _ = general(r, 0, &fup);
+                            Some(())
+                        })
+                    });
+                    let measured: Vec<i128> = log.borrow().iter().filter_map(|x| if let FilterCall::Measurement(m) = x { m.peer_delay.map(dur_to_bits) } else { None }).collect();
+                    let want = (d as i128) << 32;
+                    if got.is_none() || measured.len() != 1 || (measured[0] - want).abs() > 1 << 32 {
+                        rep.violation(Violation {
+                            signature: "peer-delay-end-to-end-wrong".into(),
+                            message: format!("link of {d} ns, request corrected by {c} ns (+{sub} * 2^-16 ns) on its way, the library's own responder: the requester's filter was handed {:?} (2^-32 ns), expected {want}", measured),
+                            replay: json!({"kind": "end-to-end", "d": d, "c": c, "sub": sub}),
+                        });
+                    }
+                }
+            }
+        }
+        rep.cover("end_to_end_exchanges", json!(cases));
+    }
     rep.assume("a second responder's frame that arrives only after the next request went out is not required to raise the fault (the port can no longer match it); it must then simply not be used");
     rep.assume("timestamps/corrections are tagged; one-step responders carry the turnaround in the correction field, so link delay = (t4 - corr - t1)/2");
     rep.finish()
 }
 
 pub fn replay(r: &serde_json::Value) {
+    if r["kind"] == "end-to-end" {
+        println!("end-to-end case {r}: rerun ./check C14 quick (the case is re-derived)");
+        return;
+    }
     if r["kind"] == "wrap" {
         println!("wrap case {r}: rerun ./check C14 quick (65537 delay timers; the case is re-derived)");
         return;
